@@ -106,6 +106,10 @@ static void build_scales(int thorough)
     static const pixman_fixed_t special[] = { 1, 2, 0x3fff, 0x4000, 0x8000, 0xffff, 0x10000, 0x10001, 0x18000, 0x20000, 0x30000, 0x48000, 0x80000 };
     g_nscales = 0;
     for (unsigned i = 0; i < sizeof special / sizeof special[0]; i++) add_scale(special[i]);
+    /* strong down-scaling: tables with tens of thousands of coefficients per axis (width x phases >= 32768 exercises the
+     * size arithmetic of pixman_image_set_filter and of the block length) */
+    add_scale(0x7f8000);                                                  /* 127.5 */
+    add_scale(0x4008000);                                                 /* 1024.5 */
     if (!thorough) {
         for (int k = 1; k <= 256; k++) add_scale(k * 2048);              /* k/32 up to 8.0 (superset of DESIGN's k/16 up to 4.0) */
         g_nbits = 6;
